@@ -94,6 +94,13 @@ def gen_rounds(seed, tier, run):
                 out.append(f"append {arr(sh)} {arr(other, base=500)} z{ax}")
         out.append(f"append {arr(sh)} {arr([3], base=500)} n")
         out.append(f"append {arr(sh)} {arr(sh, base=500)} n")
+        # nothing / one value / values of a higher rank appended to the flattened receiver (seeded change C13m: an
+        # empty list of values returned the receiver unflattened)
+        out.append(f"append {arr(sh)} a0: n")
+        out.append(f"append {arr(sh)} {arr([1], base=500)} n")
+        out.append(f"append {arr(sh)} {arr([2, 1, 2], base=500)} n")
+        out.append(f"append {arr(sh)} {arr([0, 2], base=500)} n")
+        out.append(f"concatenate L2 {arr(sh)} a0: n")
     for sh, ax, ln in (([2, 2, 2, 2], 3, 5), ([2, 3, 2, 2], 2, 5), ([2, 2, 2, 3], 1, 4), ([3, 2, 2, 2], 0, 5)):
         other = list(sh); other[ax] = ln
         out.append(f"append {arr(sh)} {arr(other, base=500)} z{ax}")
